@@ -194,6 +194,50 @@ let run_case op kv : string * string =
          (match tw.tw_shift with
           | Small p -> Printf.sprintf "Small { period: %d }" (int_of_nat p)
           | Large s -> Printf.sprintf "Large { shift: %d }" (int_of_nat s))) r, fmt_trace t)
+  | "hist" ->
+    let x = bytes kv "x" in
+    let hs = Array.of_list (List.map (fun s -> List.map n_of_int (unhex s)) (String.split_on_char ',' (get kv "hs"))) in
+    let a = nat_of_int (num kv "a") in
+    let ar = arch_of (get kv "cpu") in
+    let cfg = if get kv "cfg" = "none" then PNone else PAuto in
+    let toks = List.filter (fun s -> s <> "") (String.split_on_char ',' (get kv "ops")) in
+    let (f, t1) = finder_new cfg (ranker (get kv "rank")) ar x in
+    let (rf, t2) = rfinder_new x in
+    (match f, rf with
+     | Ok f, Ok rf ->
+       let trace = ref (t1 @ t2) in
+       let outs = ref [] in
+       let fit = ref None and rit = ref None in
+       let arg t = int_of_string (String.sub t 1 (String.length t - 1)) in
+       let panic = ref None in
+       List.iter (fun t ->
+         if !panic = None then
+         match t.[0] with
+         | 'F' | 'A' -> let (r, tr) = finder_find ar f a hs.(arg t) in trace := !trace @ tr;
+           (match r with Ok o -> outs := fmt_opt_nat o :: !outs | Panic p -> panic := Some p)
+         | 'R' -> let (r, tr) = rfinder_rfind ar rf a hs.(arg t) in trace := !trace @ tr;
+           (match r with Ok o -> outs := fmt_opt_nat o :: !outs | Panic p -> panic := Some p)
+         | 'C' | 'O' | 'K' | 'W' | 'L' | 'V' -> ()
+         | 'D' -> outs := "true" :: !outs
+         | 'I' -> fit := Some (arg t, fiter_new)
+         | 'J' -> rit := Some (arg t, riter_new hs.(arg t))
+         | 'N' -> (match !fit with
+             | None -> outs := "NoIter" :: !outs
+             | Some (i, it) -> let (r, tr) = fiter_next ar f a hs.(i) it in trace := !trace @ tr;
+               (match r with Ok (o, it') -> outs := fmt_opt_nat o :: !outs; fit := Some (i, it') | Panic p -> panic := Some p))
+         | 'S' -> (match !fit with
+             | None -> outs := "NoIter" :: !outs
+             | Some (i, it) -> let (lo, hi) = fiter_size_hint f hs.(i) it in
+               outs := Printf.sprintf "%d-%d" (int_of_nat lo) (int_of_nat hi) :: !outs)
+         | 'M' -> (match !rit with
+             | None -> outs := "NoIter" :: !outs
+             | Some (i, it) -> let (r, tr) = riter_next ar rf a hs.(i) it in trace := !trace @ tr;
+               (match r with Ok (o, it') -> outs := fmt_opt_nat o :: !outs; rit := Some (i, it') | Panic p -> panic := Some p))
+         | _ -> outs := "BadOp" :: !outs) toks;
+       (match !panic with
+        | Some p -> ("Panic:" ^ fmt_panic p, "-")
+        | None -> (String.concat ";" (List.rev !outs), "-"))
+     | Panic p, _ | _, Panic p -> ("Panic:" ^ fmt_panic p, "-"))
   | "prestate" ->
     let st0 = { ps_skips = n_of_int (num kv "skips"); ps_skipped = n_of_int (num kv "skipped") } in
     let ops = List.filter (fun s -> s <> "") (String.split_on_char ',' (get kv "ops")) in
